@@ -428,3 +428,45 @@ Definition ptm_move {A} (C : Coef A) : list (list A) := ptm2 C (kreval C move_kr
 Definition QevalCoef (c s r : Q) : Coef Q :=
   with_var (with_var (with_var QCoef vC c) vS s) vR r.
 Definition r_approx : Q := (1311738121 # 1855077841)%Q.   (* 1/sqrt 2 to 2e-19 (continued-fraction convergent) *)
+
+(* ---------- complex expression arithmetic ---------- *)
+Definition cmulE (x y : cxe) : cxe :=
+  (CAdd (CMul (fst x) (fst y)) (COpp (CMul (snd x) (snd y))), CAdd (CMul (fst x) (snd y)) (CMul (snd x) (fst y))).
+Definition cconjE (x : cxe) : cxe := (fst x, COpp (snd x)).
+Definition caddE (x y : cxe) : cxe := (CAdd (fst x) (fst y), CAdd (snd x) (snd y)).
+Definition cnegE (x : cxe) : cxe := (COpp (fst x), COpp (snd x)).
+Definition cscaleE (q : Q) (x : cxe) : cxe := (CMul (CQ q) (fst x), CMul (CQ q) (snd x)).
+Definition abs2E (x : cxe) : cexpr := CAdd (CMul (fst x) (fst x)) (CMul (snd x) (snd x)).
+
+(* ---------- targets of the KAK path ---------- *)
+(* A(u) = u0 II + u1 XX + u2 YY + u3 ZZ  (little-endian 4x4) *)
+Definition A_of_u (u : list cxe) : list (list cxe) :=
+  let u0 := nth 0 u z0 in let u1 := nth 1 u z0 in let u2 := nth 2 u z0 in let u3 := nth 3 u z0 in
+  [[caddE u0 u3; z0; z0; caddE u1 (cnegE u2)]; [z0; caddE u0 (cnegE u3); caddE u1 u2; z0];
+   [z0; caddE u1 u2; caddE u0 (cnegE u3); z0]; [caddE u1 (cnegE u2); z0; z0; caddE u0 u3]].
+(* the 8 real components of a general u, as named quantities 10..17 *)
+Definition uvars : list cxe := [(CV 10, CV 11); (CV 12, CV 13); (CV 14, CV 15); (CV 16, CV 17)].
+Definition mII : list (list cxe) := [[z1; z0; z0; z0]; [z0; z1; z0; z0]; [z0; z0; z1; z0]; [z0; z0; z0; z1]].
+Definition mXX : list (list cxe) := [[z0; z0; z0; z1]; [z0; z0; z1; z0]; [z0; z1; z0; z0]; [z1; z0; z0; z0]].
+Definition mYY : list (list cxe) := [[z0; z0; z0; zm1]; [z0; z0; z1; z0]; [z0; z1; z0; z0]; [zm1; z0; z0; z0]].
+Definition mZZ : list (list cxe) := [[z1; z0; z0; z0]; [z0; zm1; z0; z0]; [z0; z0; zm1; z0]; [z0; z0; z0; z1]].
+(* Weyl coordinates: cvar 3..8 = cos a, sin a, cos b, sin b, cos c, sin c *)
+Definition vCa := 3. Definition vSa := 4. Definition vCb := 5. Definition vSb := 6. Definition vCc := 7. Definition vSc := 8.
+(* cos t · II + i sin t · P *)
+Definition weyl_factor {A} (C : Coef A) (vc vs : nat) (P : list (list cxe)) : list (list (A * A)) :=
+  madd (CxRing C) (mscale (CxRing C) (cxeval C (CV vc, e0)) (cmeval C mII))
+                  (mscale (CxRing C) (cxeval C (e0, CV vs)) (cmeval C P)).
+(* exp(i(a XX + b YY + c ZZ)) = (cos a + i sin a XX)(cos b + i sin b YY)(cos c + i sin c ZZ) *)
+Definition Uweyl {A} (C : Coef A) : list (list (A * A)) :=
+  mmul (CxRing C) (weyl_factor C vCa vSa mXX)
+       (mmul (CxRing C) (weyl_factor C vCb vSb mYY) (weyl_factor C vCc vSc mZZ)).
+
+(* ---------- further coefficient rings ---------- *)
+(* Q[r], 2r² = 1 *)
+Definition QR : Coef (Q * Q) := with_var (ext_coef QCoef (1 # 2)%Q) vR (0%Q, 1%Q).
+(* adjoin a free indeterminate named n *)
+Definition add_indet {A} (C : Coef A) (n : nat) : Coef (list A) := with_var (poly_coef C) n [r0 C; r1 C].
+(* adjoin a point (cvar vc, cvar vs) of the unit circle *)
+Definition add_circle {A} (C : Coef A) (vc vs : nat) : Coef (list A * list A) :=
+  let P := add_indet C vc in
+  with_var (ext_coef P (radd P (r1 P) (ropp P (rmul P (cvar P vc) (cvar P vc))))) vs (r0 P, r1 P).
